@@ -294,6 +294,7 @@ class SectionResult:
         self.extra_ranges = []   # (first_line, last_line, owner item path) for pasted originals
         self.regions = []        # (first_line, last_line, label) of ins regions in the generated file
         self.hints_dropped = []  # proof-hint regions dropped because the code around them was rewritten
+        self.hints_dropped_items = []  # the functions those hints belonged to (item paths)
         self.items_removed = []  # private fns of the mirror that no longer exist in /repo (their contracts are void)
 
 
@@ -374,6 +375,7 @@ def generate_section(section, repo_root, em, res):
                         # a proof hint whose surrounding code was rewritten: the hint is dropped
                         dropped_hints.add(id(node))
                         res.hints_dropped.append('%s:%d' % (os.path.basename(section.mirror_file), node.toks[0].line))
+                        res.hints_dropped_items.append(owner_early.get(p) or owner_early.get(p - 1))
                         continue
                     raise Undecided('overlay conflict: edit of %s near line %d spans an annotation boundary (mirror %s line %d)'
                                     % (section.path, R[j1].line if j1 < len(R) else -1,
@@ -384,6 +386,13 @@ def generate_section(section, repo_root, em, res):
                                     % (section.path, section.mirror_file, e_toks[p].line))
             run = [(t, q == 0) for q, t in enumerate(R[j1:j2])]
             if not idx:
+                # pure insertion: a proof hint that sits exactly here could belong before or after the new tokens (a block that
+                # /repo closes at this point may or may not contain it): its place is ambiguous, the hint is dropped
+                for node in anchors.get(i1, []):
+                    if isinstance(node, Ins) and node.label.split()[:1] == ['proof'] and id(node) not in dropped_nodes and id(node) not in dropped_hints:
+                        dropped_hints.add(id(node))
+                        res.hints_dropped.append('%s:%d' % (os.path.basename(section.mirror_file), node.toks[0].line))
+                        res.hints_dropped_items.append(owner_early.get(i1) or owner_early.get(i1 - 1))
                 pre_a[i1].extend(run)
             else:
                 pre_b[i1].extend(run)
@@ -642,7 +651,7 @@ def build_unit(unit_path, repo_root, out_path):
                 'erasure_equal': res.equal, 'mirror_tokens': res.e_tokens, 'repo_tokens': res.r_tokens,
                 'edits_transferred': res.edits, 'rewrites': res.rewrites, 'ins_regions': res.ins_regions,
                 'items': res.items, 'not_ingested': res.dropped, 'extra_ranges': res.extra_ranges,
-                'hints_dropped': res.hints_dropped, 'regions': res.regions, 'items_removed': res.items_removed,
+                'hints_dropped': res.hints_dropped, 'hints_dropped_items': res.hints_dropped_items, 'regions': res.regions, 'items_removed': res.items_removed,
             })
         for name, child in node.get('mods', {}).items():
             em.write('pub mod %s {\n' % name)
